@@ -605,7 +605,7 @@ func parent(prop, level string, scenarios []Scenario, describe func(r *mc.Run)) 
 					r.Cap(fmt.Sprintf("scenario %s phase %d (deviation bound %d %s) not completed: %d schedules explored", s.Name, pi, ph.Bound, ph.Filter, total.execs))
 				}
 				r.Note(fmt.Sprintf("scenario:%s:phase%d", s.Name, pi), map[string]any{
-					"deviation_bound": ph.Bound, "deviation_class": orAll(ph.Filter), "completed": complete, "schedules": total.execs,
+					"what": s.Doc, "deviation_bound": ph.Bound, "deviation_class": orAll(ph.Filter), "completed": complete, "schedules": total.execs,
 					"scheduling_steps": total.steps, "choice_points_default_schedule": points, "max_choice_points": maxpts,
 					"distinct_observation_vectors": len(total.outcomes), "workers": n, "wall_s": time.Since(t0).Seconds(),
 				})
